@@ -64,6 +64,16 @@ impl CgrComputer {
         self.threads = threads;
     }
 
+    #[cfg(kmertools_verif)]
+    pub fn verif_set_max_memory(&mut self, memory: usize) {
+        self.memory = memory;
+    }
+
+    #[cfg(kmertools_verif)]
+    pub fn verif_vectorise_one(&self, seq: &[u8]) -> Result<Vec<Point>, String> {
+        self.vectorise_one(seq)
+    }
+
     pub fn vectorise(&self) -> Result<(), String> {
         let mut reader = ktio::seq::get_reader(&self.in_path).unwrap();
         let buffer = reader
